@@ -1,5 +1,5 @@
 CONSTANTS P = 43  A = 0  B = 7  Gx = 2  Gy = 12  N = 31
-          ZSet = {1, 2, 3, 17, 30, 31, 32, 61, 62}  ZDeep = {1, 31}
+          ZSet = {1, 2, 17, 30, 31, 32, 62}  ZDeep = {31}
 SPECIFICATION Spec
 INVARIANT ECDSALemmas
 CHECK_DEADLOCK FALSE
